@@ -31,6 +31,8 @@ def shards(tier):
         {"name": "scoring-comparison", "mode": "score", "audit_type": "CARD_COMPARISON", "examples": m},
         {"name": "scoring-oneaudit", "mode": "score", "audit_type": "ONEAUDIT", "examples": m},
         {"name": "sampled-phantoms", "mode": "formats", "examples": m},
+        # tens of thousands of records (a generated list repeated): few cases, each costs about a second
+        {"name": "accounting-style-big", "mode": "acct", "use_style": True, "examples": 3 if tier == "quick" else 40, "big": True},
     ]
 
 
@@ -50,7 +52,14 @@ def strategy(shard):
         n = draw(st.integers(1, 25))
         styles = draw(st.lists(st.lists(st.sampled_from(cids + ["X"]), max_size=ncon + 1, unique=True), min_size=1, max_size=5))
         cards = [sorted(draw(st.sampled_from(styles))) for _ in range(n)]
-        counts = {c: sum(1 for s in cards if c in s) for c in cids}
+        size = None
+        if shard.get("big"):
+            size = draw(st.sampled_from([32768, 32800, 40000, 65537, 70000]))
+            cards[0] = sorted(cids)   # (at least one record lists every contest)
+            n0, n = n, size
+            counts = {c: sum(1 for i in range(size) if c in cards[i % n0]) for c in cids}
+        else:
+            counts = {c: sum(1 for s in cards if c in s) for c in cids}
         max_cards = n + draw(st.sampled_from([0, 0, 1, 2, 5, 17]))
         bounds = {}
         for c in cids:
@@ -60,7 +69,7 @@ def strategy(shard):
             else:
                 hi = max_cards if draw(st.booleans()) else counts[c] + 6
                 bounds[c] = draw(st.integers(counts[c], max(counts[c], hi)))
-        return {"mode": "acct", "use_style": shard["use_style"], "contests": bounds, "max_cards": max_cards, "cards": cards,
+        return {"mode": "acct", "use_style": shard["use_style"], "contests": bounds, "max_cards": max_cards, "cards": cards, "size": size,
                 "prefix": draw(st.sampled_from(["phantom-", "phantom-1-", "P"])),
                 "tally_pool": draw(st.sampled_from([None, "pp"])), "pool": draw(st.booleans())}
 
@@ -121,6 +130,10 @@ def evaluate(case, out):
         out.nontrivial = len(want) >= 2
         return
     if case["mode"] == "acct":
+        if case.get("size"):
+            # the list repeated up to the given number of records
+            case = dict(case, cards=[case["cards"][i % len(case["cards"])] for i in range(case["size"])])
+            out.cls("tens-of-thousands-of-records")
         us = case["use_style"]
         out.cls("style" if us else "nostyle")
         cids = list(case["contests"])
